@@ -93,3 +93,29 @@ Definition direct_no_delay (k : direct RN) : direct RN :=
   mkDirect RN (dr_shape RN k) (dr_B RN k) (dr_w RN k) (dr_b RN k) None.
 Definition conv_no_delay (k : conv RN) : conv RN :=
   mkConv RN (cv_g RN k) (cv_B RN k) (cv_w RN k) (cv_b RN k) None.
+
+(* ---------------------------------------------------------------- closed forms and the decomposition by delay *)
+(* the documented response of each synapse class to the inputs older than k steps, for synapse element e *)
+Definition shifted_response (c : cfgR) (p : pastR) (k e : nat) : R :=
+  match ckind RN c with
+  | KDelta => isum (resp_delta (cQ RN c) (cdt RN c)) (skipn k (btrain p e))
+  | KDeltaPlus => isum (resp_delta (cQ RN c) (cdt RN c)) (skipn k (train p e)) + injected (skipn k p) e
+  | KSingleExp => isum (resp_exp (cQ RN c / ctau RN c) (cdt RN c) (ctau RN c)) (skipn k (train p e))
+  | KDoubleExp => isum (resp_dexp (cQ RN c) (cdt RN c) (ctau RN c) (ctr RN c)) (skipn k (train p e))
+  end.
+
+(* time elapsed between the older bracketing step and the delayed instant *)
+Definition since_older (c : cfgR) (t : R) : R := IZR (Zceil (t / cdt RN c)) * cdt RN c - t.
+
+(* weights of the synapses delayed by exactly K steps *)
+Definition masked_weight (W : list (list R)) (kk : nat -> nat -> nat) (K o i : nat) : R :=
+  if (kk o i =? K)%nat then mat_at W o i else 0.
+(* entry (b, o) of the undelayed, unbiased dense map with weights W_K applied to the currents of the undelayed synapse on the
+   history shifted by K steps (DenseProofs.dense_undelayed_forward: this IS that connection's forward output) *)
+Definition undelayed_part (c : cfgR) (p : pastR) (W : list (list R)) (kk : nat -> nat -> nat) (NI K b o : nat) : R :=
+  Rsum NI (fun i => masked_weight W kk K o i * nth (b * NI + i) (cur_out RN (undelayed c) (shifted (undelayed c) p K)) 0).
+(* the undelayed, unbiased LinearDense with the weights W_K *)
+Definition masked_matrix (W : list (list R)) (kk : nat -> nat -> nat) (K NO NI : nat) : list (list R) :=
+  map (fun o => map (fun i => masked_weight W kk K o i) (seq 0 NI)) (seq 0 NO).
+Definition dense_part (k : dense RN) (kk : nat -> nat -> nat) (K : nat) : dense RN :=
+  mkDense RN (dn_in RN k) (dn_out RN k) (dn_B RN k) (masked_matrix (dn_w RN k) kk K (dn_O RN k) (dn_I RN k)) None None.
